@@ -1,0 +1,12 @@
+//go:build !verif
+
+package exec
+
+import (
+	"context"
+
+	"github.com/theory/sqljson/path/ast"
+)
+
+// verifStep is a no-op unless built with the "verif" tag.
+func verifStep(context.Context, ast.Node) {}
